@@ -226,6 +226,15 @@ def st_Assign(ex, st, s, cx):
         if ty is None and isinstance(v, ast.Call) and v.func.id == 'bytearray':
             ty = T.BYTEARRAY
         if ty is not None:
+            base_ = ty.args[0] if ty.kind == 'opt' else ty
+            if base_.kind == 'ref':
+                # the contract types this local as an object (the source annotation says list): the empty list it is
+                # initialised with is some non-None object that is never inspected before the local is reassigned
+                s2, r = ex.alloc(st, base_, 'placeholder')
+                note = f'local `{ast.unparse(s.targets[0])}` is initialised with an empty container but typed {ty!r} by the contract: placeholder object'
+                if note not in ex.notes:
+                    ex.notes.append(note)
+                return f(s2, SV(ty, r.z))
             s2, r = new_empty(ex, st, ty)
             return f(s2, r)
     if isinstance(v, ast.ListComp) and len(s.targets) == 1 and len(v.generators) == 1 and isinstance(s.targets[0], ast.Name):
